@@ -1,0 +1,31 @@
+//go:build verif
+
+package socks5
+
+import "net"
+
+// Verification-only accessors (policy family: C21-C23). Add-only.
+
+// VerifHandler returns the protocol handler shared by the TCP and WebSocket
+// listeners of this server.
+func (s *Server) VerifHandler() *Handler { return s.handler }
+
+// VerifSetDialer replaces the outbound dialer (the agent installs itself).
+func (h *Handler) VerifSetDialer(d Dialer) { h.dialer = d }
+
+// VerifAuthMethods returns the method codes of the configured
+// authenticators in selection order.
+func (h *Handler) VerifAuthMethods() []byte {
+	out := make([]byte, 0, len(h.authenticators))
+	for _, a := range h.authenticators {
+		out = append(out, a.GetMethod())
+	}
+	return out
+}
+
+// VerifActualClientAddr returns the recorded client address (nil if none).
+func (a *UDPAssociation) VerifActualClientAddr() *net.UDPAddr {
+	a.mu.RLock()
+	defer a.mu.RUnlock()
+	return a.ActualClientAddr
+}
